@@ -34,6 +34,14 @@ CHECKS = {
   text='Coq theorem C11_tamper over an executable model of TitleMetadataReader.load: for two inputs with the same signature type and header that both load with verification on, the info records and every chunk record covered by an info record are identical, or the loads exhibit two different inputs with equal SHA-256 (constructed; no collision-resistance assumption); records are determined by their 48-byte form; version/type word codecs swept completely on regenerated kernels; extracted model (hashlib as SHA-256 oracle) compared with the implementation on valid, corrupted and truncated inputs; parse/serialise round trips and a tamper sweep decided on the implementation against an independent builder.',
   note='Partial: no Coq theorem for __bytes__ (round trips are oracle-only, sampled; all 65 536 categories in thorough). Tamper theorem assumes both inputs contain all announced chunk records. Trusted: Coq kernel, extraction + driver, hand model Tmd.v (tie 2), translator for the word codecs, builder pack.py.',
   technique='Rocq/Coq proof with constructed collision witnesses + model/implementation correspondence + round-trip oracle'),
+ 'C03': dict(
+  text='Coq theorems: the ExeFS crypto ranges built by load_sections tile the region for every entry table and, for sorted disjoint tables, label each byte "extra key" exactly when it lies in a non-icon/banner file; the merged ExeFS view (windows onto two whole-region CTR streams selected per range) equals the region plaintext for any AES (uninterpreted), one counter running continuously; the flag bits and the section counter expression are regenerated from source and proved against their bit-level meaning. Section views are CTR wrappers over windows (C01/C09). Plaintexts of every section under the crypto-method x seed x fixed-key x no-crypto x assume-decrypted product are decided against an independent builder.',
+  note='Partial: keyslot selection / seed handling of __init__ are oracle-only (sampled product; full product in thorough). Trusted: Coq kernel, translator, extraction + driver, hand model Ncch.v (tie 2 against reader._exefs_crypto_ranges), builder ncch.py, synthetic bootROM blob.',
+  technique='Rocq/Coq proofs (range partition/labelling by induction, merged-view refinement) + regenerated kernels + builder oracle'),
+ 'C04': dict(
+  text='Coq theorem C04_fulldec_read over an executable model of the FullDecrypted branch of get_data (chunk classification, insertion-ordered grouping dictionary, header patch, head/tail trimming): for every well-formed region table and every (offset, length) the read equals the slice of one whole image, whose size is the declared content size; the grouping argument is proved for any classifier whose sections are chunk intervals. Extracted model run against get_data; seek/read histories around every section boundary, image size and the key-free re-parse decided against builder plaintexts.',
+  note='Theorem assumes 0x200-aligned, pairwise disjoint regions inside the content (malformed tables: C19). Handle position bookkeeping is oracle-checked here (C09 covers the base class). Trusted: Coq kernel, extraction + driver, hand model NcchFull.v (tie 2), builder.',
+  technique='Rocq/Coq refinement proof (run-grouping invariant over the chunk loop, trimming algebra) + correspondence + metamorphic re-parse'),
 }
 
 NOT_YET = 'check not built yet in this session (work in progress; see DESIGN.md section 10 order of work)'
